@@ -86,7 +86,7 @@ def invalid_grid(ctx):
 
 
 def construct_job(ctx, solver, cfg, route, order, problem="forest", solve=3, tag=""):
-    return {"kind": "c20_construct", "solver": solver, "problem": {"kind": problem, "params": SMALL[problem]}, "config": cfg, "route": route, "order": order, "solve": solve,
+    return {"twice": route == "kwargs" and order == "problem_first", "kind": "c20_construct", "solver": solver, "problem": {"kind": problem, "params": SMALL[problem]}, "config": cfg, "route": route, "order": order, "solve": solve,
             "tmpdir": str(ctx.scratch / f"yaml_{tag}")}
 
 
@@ -136,6 +136,7 @@ def run(ctx, build):
                 viols.append({"key": f"paccepts:{prob}:{sorted((k, str(v)) for k, v in m.items())}", "what": f"{prob} with {m} was not rejected (got {got or 'a problem instance'})", "input": {"problem": prob, "params": m}})
     n_ok = 0
     n_table_precision = 0
+    n_same_object = 0
     for i, lst in by_case.items():
         solver, cfg = lst[0][0][2], lst[0][0][3]
         got_by = {}
@@ -161,17 +162,14 @@ def run(ctx, build):
         #  * the YAML reload happens after a first solver exists (64-bit mode on): bit-identical to D;
         #  * problem-first vs D: bit-identical when the problem's tables are exact in single precision (Forest, p = 1/4);
         #    otherwise the problem object built BEFORE 64-bit mode keeps single-precision tables (problem data, not the
-        #    solver's values): float64 values that agree with D up to the single-precision evaluation of the problem's own
-        #    tables (special functions in float32: observed up to 1.2e-6 relative; bound 1e-5).
+        #    solver's values) and the float64 results differ from D accordingly (amplified by 1/(1-gamma)): counted as an
+        #    observation, no verdict - the solver side is isolated by the same-object comparison below.
         A, B, C, D = (got_by.get(k) for k in (("kwargs", "problem_first"), ("config_only", "problem_first"), ("yaml", "problem_first"), ("kwargs", "solver_first")))
         prob = lst[0][0][6]
 
         def differs(x, y):
             return x is not None and y is not None and (x["iteration"], x["policy"], x["values"]) != (y["iteration"], y["policy"], y["values"])
 
-        def close(x, y):
-            vx, vy = [float(F(v)) for v in x["values"]], [float(F(v)) for v in y["values"]]
-            return x["iteration"] == y["iteration"] and all(abs(a - b) <= 1e-5 * max(1.0, abs(a)) for a, b in zip(vx, vy))
         for (n1, x), (n2, y) in ((("kwargs", A), ("configuration-only", B)), (("YAML reload", C), ("kwargs after a first solver", D))):
             if differs(x, y):
                 viols.append({"key": f"routes-differ:{solver}:{sorted(cfg.items())}", "what": f"routes {n1} and {n2} give different results for the same parameters (same 64-bit mode at problem construction)",
@@ -180,11 +178,21 @@ def run(ctx, build):
             if prob == "forest":
                 viols.append({"key": f"order-differs:{solver}:{sorted(cfg.items())}", "what": "same parameters, same route: results differ between the two construction orders on a problem whose tables are exact in single and double precision",
                               "input": {"solver": solver, "config": cfg, "route": "kwargs", "problem": prob}})
-            elif not close(A, D):
-                viols.append({"key": f"order-differs:{solver}:{sorted(cfg.items())}", "what": "same parameters, same route: results of the two construction orders differ by more than single-precision rounding of the problem's own tables",
-                              "input": {"solver": solver, "config": cfg, "route": "kwargs", "problem": prob}})
             else:
-                n_table_precision += 1
+                n_table_precision += 1      # observation only (problem data built before 64-bit mode; see DESIGN section 14)
+        # the solver's OWN precision handling, isolated from the problem's data: first solver of the process vs a second solver on
+        # the SAME problem object (64-bit mode certainly on for the second): bit-identical
+        if A is not None and "second" in A:
+            s2 = A["second"]
+            if s2.get("raised"):
+                viols.append({"key": f"second-solver-raises:{solver}:{sorted(cfg.items())}", "what": f"a second solver on the same problem object fails: {s2['raised']}: {s2.get('message', '')[:160]}",
+                              "input": {"solver": solver, "config": cfg, "route": "kwargs", "problem": prob}})
+            elif (A["iteration"], A["policy"], A["values"], A.get("dtype")) != (s2["iteration"], s2["policy"], s2["values"], s2.get("dtype")):
+                viols.append({"key": f"first-solver-differs:{solver}:{sorted(cfg.items())}",
+                              "what": "the first solver of a process (problem built before 64-bit mode was enabled) and a second solver on the SAME problem object give different results: "
+                                      "the solver's precision set-up depends on the construction order",
+                              "input": {"solver": solver, "config": cfg, "route": "kwargs", "problem": prob}})
+            n_same_object += 1
     # the translated validators vs construction outcomes (model evaluated in the kernel)
     items = []
     if build["model_ok"]:
@@ -203,6 +211,7 @@ def run(ctx, build):
         "accepted_sets_that_worked": n_ok,
         "route_and_order_comparisons": "bit-exact (kwargs = configuration-only; YAML reload = kwargs after a first solver; both orders on dyadic Forest tables)",
         "cases_where_orders_differ_only_by_single_precision_problem_tables": n_table_precision,
+        "first_vs_second_solver_on_the_same_problem_object_compared_bit_for_bit": n_same_object,
         "rule": "FRESH process per construction (64-bit mode is process-global): solver class x route (kwargs + problem instance, configuration object alone, YAML reload) x "
                 "construction order x boundary grid (gamma 0, 2^-20, 1/2, 1-2^-20, 1; epsilon 1e-12 .. 1e6 so thresholds straddle 1, 10, 100; integer fields at -1/0/1; bad strings; "
                 "problem fields at and around their bounds); accepted sets must solve(3) and agree across routes; every case is a distinct parameter set",
